@@ -61,6 +61,8 @@ def run_consensus(ck, tags, oracle, tier, ntrees_quick=6, ntrees_thorough=40, ex
     from skepticoin.coinstate import CoinState
     rng = ck.rng
     ntrees = ntrees_quick if tier == 'quick' else ntrees_thorough
+    if common.REDUCED:
+        ntrees = 2
     keys = chaingen.Keys()
     reqs = []
     meta = []
@@ -74,6 +76,15 @@ def run_consensus(ck, tags, oracle, tier, ntrees_quick=6, ntrees_thorough=40, ex
                 chaingen.grow_two_branches(tg, env.period)
             else:
                 tg.grow(rng.choice([7, 9, 11]) if tier == 'quick' else rng.choice([9, 14, 20]), fork_p=0.3)
+            if trial == 0 and ('C01' in tags or 'C02' in tags):
+                # one tree gets a head whose ledger holds 90 small outputs of wallet keys (split of a reward)
+                hd_ = max(tg.nodes, key=lambda x: x.height)
+                big = [(r_, vo) for r_, vo in sorted(tg.spendable(hd_)) if vo[0] >= 1000]
+                if big:
+                    r0_, (v0_, _pk0) = big[0]
+                    outs_ = [(v0_ // 100, keys.pks[i % 3]) for i in range(90)]
+                    outs_.append((v0_ - sum(v for v, _ in outs_), keys.pks[4]))
+                    tg.extend(hd_, txs=[chaingen.signed_tx(keys, hd_.utxo, [r0_], outs_)], fees=0, dt=100)
             nodes = tg.nodes
             order = parent_first_orders(nodes, rng, 2)[-1]
             # --- every generated block must pass full validation in this arrival order
@@ -209,3 +220,62 @@ def run_consensus(ck, tags, oracle, tier, ntrees_quick=6, ntrees_thorough=40, ex
         'impl_differs_from_expectation': sorted(set(m['label'] for m in meta
                                                     if (m['impl'][0] == 1) != (m['expect'] == 'accept')))}
     return meta
+
+
+
+def node_relay_probe(ck, tier, tags):
+    """the path that feeds full validation for relayed blocks: a real node in three situations -- idle, with a block-download
+    round open towards another peer, with bulk-download replies waiting unvalidated -- is sent rule-violating blocks
+    UNSOLICITED (in_response_to = 0): none may enter the served chain state; a valid one does"""
+    import nodeharness
+    import simnet
+    from skepticoin.networking import messages as M
+    rng = ck.rng
+    keys = chaingen.Keys()
+    for situation in ('idle', 'fetch-round-open', 'bulk-download-pending'):
+        with chaingen.Env(period=50) as env:
+            tg = chaingen.TreeGen(env, keys, rng)
+            n = tg.genesis
+            for _ in range(4):
+                n = tg.extend(n, txs=[], fees=0, dt=100)
+            main = list(tg.nodes)
+            with simnet.Net(seed=rng.getrandbits(30), t0=n.view.time + 5000) as net:
+                sn = nodeharness.SingleNode(net, chaingen.impl_state_from(main), [m.block for m in main[1:]], npeers=3)
+                sn.new_messages()
+                head = n
+                if situation == 'fetch-round-open':
+                    sn.node.step()                     # the chain manager asks one of its peers for blocks; no answer comes
+                    sn.pump()
+                    asked = sum(1 for msgs in sn.new_messages() for (k, _i, _r) in msgs if k == 'GetBlocksMessage')
+                    ck.count('node-probe/block-requests-open', asked)
+                elif situation == 'bulk-download-pending':
+                    for _ in range(2):
+                        head = tg.extend(head, txs=[], fees=0, dt=100)
+                        sn.deliver(0, M.DataMessage(M.DATA_BLOCK, head.block), irt=93)
+                bad = [c for c in mutators.mutants(tg, head, rng, tags=tags) if c['expect'] == 'reject']
+                rng.shuffle(bad)
+                for c in bad[:6 if tier == 'quick' else 20]:
+                    if c['label'].startswith('time-31s'):
+                        net.clock.t = c['now']            # this mutant is about the node's clock: 31 s behind the block
+                    elif c['label'].startswith('control-time'):
+                        continue
+                    else:
+                        net.clock.t = max(net.clock.t, c['now'])
+                    before = sn.observe()
+                    sn.deliver(rng.choice([1, 2]), M.DataMessage(M.DATA_BLOCK, c['block']))
+                    after = sn.observe()
+                    bid = spec.sha256d(c['block'].header.serialize())
+                    ck.case(('node-probe', situation, c['label']), kind='relayed-while-%s/%s' % (situation, 'entered' if bid in after['blocks'] else 'refused'))
+                    if bid in after['blocks']:
+                        ck.violation('relayed-invalid-block-entered-state', 'a node that is %s accepts an unsolicited block (%s) that '
+                                     'breaks the rules into its served chain state' % (situation.replace('-', ' '), c['label']),
+                                     {'node_level': True, 'situation': situation, 'label': c['label'],
+                                      'prefix': [m.block.serialize().hex() for m in tg.nodes if m.id in before['blocks']],
+                                      'block': c['block'].serialize().hex(), 'now': c['now'], 'period': 50, 'span': env.span})
+                        break
+                    if sn.node.escaped:
+                        ck.violation('exception-escaped', 'an exception escaped the event handler: %s' % sn.node.escaped[0][1],
+                                     {'node_level': True, 'situation': situation})
+                        break
+                    cur = bytes(sn.lp().chain_manager.coinstate.current_chain_hash)
+                    head = [x for x in tg.nodes if x.id == cur][0] if any(x.id == cur for x in tg.nodes) else head
